@@ -5,3 +5,7 @@ pub fn run(_ctx: &Ctx) -> Report {
     r.machinery_errors.push("C12 not implemented yet".into());
     r
 }
+
+pub fn api_jobs(_ctx: &Ctx, _termination_only: bool) -> Vec<(std::sync::Arc<Scenario>, RunSpec, usize)> {
+    vec![]
+}
